@@ -90,7 +90,7 @@ def oracle(case, res):
             return 'result:op %d has %d results' % (k, len(ress))
         ok = ress[0][1]
         dev = idev if idev >= 0 else 0
-        esrc = (src0 + idev) & 0xff if 0 <= idev < ndev else msrc
+        esrc = own_addr(src0, idev) if 0 <= idev < ndev else msrc
         edst = mdst if pdu1(pgn) else 255
         must_refuse = (idev >= ndev or pgn == 0 or (pdu1(pgn) and (pgn & 0xff) != 0) or (esrc > 251 and pgn != 60928) or mode == 0)
         if must_refuse:
@@ -151,6 +151,15 @@ def check(run, replay=None):
     run.cov['rule'] = ('per case one node (modes 0..4, 1..9 devices, address ranges incl. 251/252/254, application fast-packet lists replacing/extending the defaults, declared transmit lists) and a list of '
                        'application sends over PGN classes (system, mandatory, default single/fast, proprietary ranges, unknown, PDU1 with low byte, 0) x lengths 0..223 (all lengths once for 4 PGNs) x '
                        'priorities x device index (valid, -1, out of range); runs of declared fast-packet PGNs for the sequence ids; accepting driver.  Model, C++ (both scheduler builds) compared on every '
-                       'driver frame, result and internal state; non-trivial = distinct case (every case has >= 8 sends)')
-    for fs in ('w64', 'w32'):
+                       'driver frame, result and internal state; family queued-*: the same comparison with a refusing driver and more than 256 frames waiting; non-trivial = distinct case (every case has >= 8 sends)')
+    for fs in (() if (replay and any(l.startswith('# family: queued-') for l in open(replay))) else ('w64', 'w32')):
         vlib.correspond(run, 'send-' + fs, 'h_node', fs, 'NODE', cases, oracle, None, known=known, model_args=[fs])
+    # the send path behind a busy driver: with more than 256 frames waiting (7..9 devices x 40 slots, or an explicit large buffer) the
+    # driver must still see exactly the frames of the accepted messages, in order - the large-queue histories of the C11 generator under
+    # the C11 FIFO oracle (the framing of each message is checked by that oracle's reference encoder)
+    qreplay = bool(replay) and any(l.startswith('# family: queued-') for l in open(replay))
+    if qreplay or not replay:
+        import random, p_C11
+        qcases = cases if qreplay else p_C11.large_queue_cases(random.Random(run.seed * 31337 + 1), run.tier != 'quick')
+        for fs in ('w64', 'w32'):
+            vlib.correspond(run, 'queued-' + fs, 'h_node', fs, 'NODE', qcases, p_C11.oracle, None, model_args=[fs])
